@@ -12,7 +12,7 @@ func init() {
 		Assumptions: trustedBase,
 		Run: func(m *Model, s *Sink) {
 			m.RunResponse(s, "R-RESPONSE")
-			s.RequireMin("R-RESPONSE", 10, "writer flow, 2 writes, single body, 4 returns, custom page conditions, nil data, debugMode, embedded page")
+			s.RequireMin("R-RESPONSE", 12, "writer flow, 8 case-evaluation clauses, Error never nil, debugMode, embedded page")
 		},
 	})
 }
